@@ -1,8 +1,10 @@
 #!/bin/bash
-# usage: run_all.sh [tier] [seed]  -- runs every registered check once, prints a summary line per check
+# usage: run_all.sh [tier] [seed] [ids...]  -- runs every registered check (or the listed ones) once, prints a summary line per check
 TIER=${1:-quick}; SEED=${2:-1}
 cd "$(dirname "$0")/.."; mkdir -p run
-for id in $(cat REGISTERED.txt); do
+shift; shift
+IDS="$@"; [ -z "$IDS" ] && IDS=$(cat REGISTERED.txt)
+for id in $IDS; do
   s=$(date +%s)
   VERIF_SEED=$SEED ./check $id $TIER > run/all-$id-$TIER-$SEED.log 2>&1; rc=$?
   e=$(( $(date +%s) - s ))
